@@ -6,6 +6,7 @@ import (
 	"crypto/sha256"
 	"fmt"
 	"hash/fnv"
+	"io"
 	"math/rand"
 	"os"
 	"sort"
@@ -124,6 +125,16 @@ func gen04(seed int64, tier string) []drv.Case {
 		}
 		add(cls, params{Tree: ts, Leaf: uint32(leaf), UpConc: upC[r.Intn(4)], DownConc: dnC[r.Intn(4)], Mode: "keys", Keys: keys, SkipMiss: i%4 == 3})
 	}
+	// store faults: every store call of an upload and of a download of a small tree fails once
+	nfault := 4
+	if tier == "thorough" {
+		nfault = 60
+	}
+	for i := 0; i < nfault; i++ {
+		leaf := []int{64, 4096}[r.Intn(2)]
+		ts := coreh.GenTree(r, r.Int63(), 2+r.Intn(6), coreh.TreeOpt{Leaf: leaf, DupRatio: 3, Decoys: i%2 == 0})
+		add("store-fault", params{Tree: ts, Leaf: uint32(leaf), UpConc: upC[r.Intn(4)], DownConc: dnC[r.Intn(4)], Mode: "fault"})
+	}
 	return cs
 }
 
@@ -159,10 +170,173 @@ func tmp(prefix string) string {
 	return d
 }
 
+// runFault04: one store call of an upload, then of a download, fails (or a blob transfer is cut mid-body); the
+// operation carries on along its error path. Whatever it reports, a success must have the full postcondition: an
+// upload that returns nil lists exactly the model's files, a download that returns nil wrote exactly the tree.
+func runFault04(p params, res *drv.Result) {
+	tree := p.Tree.Tree()
+	model := coreh.Tree{}
+	for k, v := range tree {
+		if !coreh.IsGeneratedRef(k) {
+			model[k] = v
+		}
+	}
+	base := coreh.NewEnv(memstore.Config{})
+	if err := base.CreateRepo(nil, "r"); err != nil {
+		panic(err)
+	}
+	base.MemConsumable("src", tree)
+	evals := int64(0)
+	upload := func(env *coreh.Env, a *memstore.Actor) (string, error) {
+		// the source is read through the actor as well (a failing read of a source file is a fault too)
+		return env.Upload(a, "r", env.W.Store("src").For(a), coreh.UploadOpts{Leaf: p.Leaf, Concurrency: p.UpConc})
+	}
+	dry := base.Clone()
+	da := memstore.NewActor("dry")
+	id0, err := upload(dry, da)
+	if err != nil {
+		res.Violate("operation-failed", "upload", "fault-free upload failed: %v", err)
+		return
+	}
+	ncalls, _ := da.Calls()
+	checkBundle := func(env *coreh.Env, id, what string) bool {
+		_, ents, err := env.Entries(nil, "r", id)
+		if err != nil {
+			res.Violate("successful-upload-unreadable", what, "%s: Upload returned nil but the bundle does not read back: %v", what, err)
+			return false
+		}
+		got := map[string]bool{}
+		for _, e := range ents {
+			got[norm(e.NameWithPath)] = true
+		}
+		for k := range model {
+			if !got[norm(k)] {
+				res.Violate("successful-upload-incomplete", "upload-fault", "%s: Upload returned nil but %q is not in the bundle (%d entries, %d files expected)", what, k, len(ents), len(model))
+				return false
+			}
+		}
+		if len(ents) != len(model) {
+			res.Violate("successful-upload-incomplete", "upload-fault|extra", "%s: Upload returned nil with %d entries for %d files", what, len(ents), len(model))
+			return false
+		}
+		dest := env.W.Store("dest-" + id)
+		if err := env.Publish(nil, "r", id, dest.For(nil), 2); err != nil {
+			res.Violate("successful-upload-unreadable", what, "%s: Upload returned nil but the bundle does not download: %v", what, err)
+			return false
+		}
+		if d := coreh.DiffTrees(coreh.WithoutMeta(coreh.StoreTree(dest)), model); d != "" {
+			res.Violate("successful-upload-incomplete", "upload-fault|content", "%s: %s", what, d)
+			return false
+		}
+		return true
+	}
+	step := 1
+	if ncalls > 60 {
+		step = ncalls / 60
+	}
+	for k := 1; k <= ncalls; k += step {
+		k := k
+		env := base.Clone()
+		a := memstore.NewActor("uploader")
+		kind := ""
+		a.SetFault(func(c memstore.Call) error {
+			if c.Index == k {
+				kind = c.Store + "." + c.Op
+				return memstore.ErrInjected
+			}
+			return nil
+		})
+		id, err := upload(env, a)
+		evals++
+		res.Stat("upload_fault_points", 1)
+		res.Seen("faulted_call_kinds", "upload:"+kind)
+		if err != nil {
+			res.Stat("uploads_reporting_the_fault", 1)
+			// nothing visible, or a complete bundle
+			bs, lerr := core.ListBundles("r", env.Stores(nil))
+			if lerr != nil {
+				res.Violate("listing-fails-after-failed-upload", kind, "upload failed on %s (call %d of %d), then ListBundles fails: %v", kind, k, ncalls, lerr)
+				return
+			}
+			for _, b := range bs {
+				if !checkBundle(env, b.ID, fmt.Sprintf("failed upload (fault on %s, call %d of %d) left a visible bundle", kind, k, ncalls)) {
+					return
+				}
+			}
+			continue
+		}
+		if !checkBundle(env, id, fmt.Sprintf("fault on %s (call %d of %d)", kind, k, ncalls)) {
+			return
+		}
+	}
+	// downloads of the fault-free bundle under one failing call / one cut transfer
+	dd := memstore.NewActor("dry-dl")
+	if err := dry.Publish(dd, "r", id0, dry.W.Store("dry-dest").For(dd), p.DownConc); err != nil {
+		res.Violate("operation-failed", "download", "fault-free download failed: %v", err)
+		return
+	}
+	ndl, _ := dd.Calls()
+	step = 1
+	if ndl > 60 {
+		step = ndl / 60
+	}
+	for k := 1; k <= ndl; k += step {
+		for _, cut := range []bool{false, true} {
+			k := k
+			env := dry.Clone()
+			a := memstore.NewActor("downloader")
+			kind := ""
+			if cut {
+				n := 0
+				a.SetReadFault(func(c memstore.Call, size int) (int, error) {
+					if c.Store != "blob" {
+						return 0, nil
+					}
+					n++
+					if n == 1+k%7 && size > 1 {
+						kind = "blob.get-body-cut"
+						return size / 2, io.ErrUnexpectedEOF
+					}
+					return 0, nil
+				})
+			} else {
+				a.SetFault(func(c memstore.Call) error {
+					if c.Index == k {
+						kind = c.Store + "." + c.Op
+						return memstore.ErrInjected
+					}
+					return nil
+				})
+			}
+			dest := env.W.Store(fmt.Sprintf("dest-%d-%v", k, cut))
+			err := env.Publish(a, "r", id0, dest.For(a), p.DownConc)
+			evals++
+			res.Stat("download_fault_points", 1)
+			res.Seen("faulted_call_kinds", "download:"+kind)
+			if err != nil {
+				res.Stat("downloads_reporting_the_fault", 1)
+				continue
+			}
+			if d := coreh.DiffTrees(coreh.WithoutMeta(coreh.StoreTree(dest)), model); d != "" {
+				res.Violate("successful-download-wrong", "download-fault|"+kind, "Publish returned nil under a fault on %s (call %d of %d) but the destination differs from the bundle: %s", kind, k, ndl, d)
+				return
+			}
+		}
+	}
+	res.Nontrivial = len(model) > 0
+	res.Evals, res.Distinct = evals-1, evals-1
+	res.Sample = map[string]interface{}{"mode": "fault", "files": len(model), "leaf": p.Leaf, "upload_calls": ncalls, "download_calls": ndl, "executions": evals}
+}
+
 func run04(c drv.Case, res *drv.Result) {
 	var p params
 	drv.Params(c, &p)
 	cafsh.InstallWriteProgressMonitor()
+	if p.Mode == "fault" {
+		res.Canon = string(c.Params)
+		runFault04(p, res)
+		return
+	}
 	env := coreh.NewEnv(memstore.Config{})
 	if err := env.CreateRepo(nil, "repo"); err != nil {
 		panic(err)
